@@ -114,7 +114,7 @@ PROPS = {
         "level_text": "The executable certificate checker Dump.check (no duplicate content, children strictly below and live, node-local reduction conditions, per-edge skipping conditions, root conditions) is proved sound: an accepted dump unfolds to trees in reduced form (Dump.check_sound, check_sound_node). It is run on a dump of EVERY active node of the real forest (public node-inspection API, full view) at every quiescent point of generated histories, for every MT forest kind and random storage / memory-manager / deletion policies; reported node count must equal the number of live nodes.",
         "level_note": "The checker's completeness (never rejects a good state) is not proved; it is supported by clean runs at many seeds. Sparse/full view agreement and hashing are checked only through unique-table effects. EV+ forests use the verified EDump.check; EV* forests: structural recount + model evaluation only.",
         "technique": "verified certificate checker (Lean 4 soundness proof) applied to dumps of the real node store",
-        "partial": ["full/sparse view agreement and hash equality not dumped", "EV* forests: no verified normal-form checker"],
+        "partial": ["full/sparse view agreement, hash equality and unique-table lookup are checked by the harness next to every dump (expect records), not by a Lean codec model", "EV* forests: no verified normal-form checker"],
     },
     "C12": {
         "title": "Results do not depend on storage, memory-manager or deletion policy",
@@ -634,6 +634,9 @@ NOT_YET = {}
 # correspondence between model and code.
 # Regular expressions on the whole DIFF line that also mark a direct property failure.
 ORACLE_PATTERNS = {
+    # any family: generic `expect` records emitted next to every dump (C02: views agree and hash alike, the
+    # unique table finds every stored node; C06: nothing leaks after release)
+    "*": [r"kind=(views-agree|views-hash-alike|unique-table-finds-node|leak)"],
     # an out-of-range integer accepted, or a value not recovered through a real forest
     "terminal": [r"expected=overflow got=(?!overflow)", r"kind=(const|cedge|fv|fh)\.", r"kind=crash"],
     # recorded counts / liveness of a handle differ from the number of references the trace created
